@@ -29,7 +29,8 @@ FUNCTIONS = ['playback/tape_cassettes/in_memory/in_memory_tape_cassette.py::InMe
              'playback/tape_cassette.py::TapeCassette.match_against_recorded_metadata',
              'playback/tape_cassette.py::TapeCassette.iter_recordings_metadata',
              'playback/studio/recordings_lookup.py::find_matching_recording_ids']
-STUBS = ['jsonpickle -> token model; json.loads of the S3 metadata object -> decode of the token; in-memory store -> '
+STUBS = ['random.shuffle / random.choice in the cassettes -> one fixed non-identity permutation (only the result SET is checked)',
+         'jsonpickle -> token model; json.loads of the S3 metadata object -> decode of the token; in-memory store -> '
          'association list (symbolic ids); os/io -> in-memory directory; boto3 -> bucket model; uuid/datetime -> models; '
          'parse.compile -> model (only extract_recording_category uses it now)']
 ASSUMPTIONS = ['category texts contain none of "/", ".", "{", "}" (id / file-name / format separators)']
@@ -201,7 +202,7 @@ _FIXCATS = ['a', 'a', 'a_']
 _QS = [{'cassette': c, 'filter': f, 'q': q} for c in _CASS for f in ('none',) for q in _Q] + \
       [{'cassette': c, 'filter': 'default-skip-incomplete', 'q': 'a'} for c in _CASS] + \
       [{'cassette': c, 'filter': f, 'cats': _FIXCATS, 'q': 'a'} for c in _CASS for f in ('default-skip-incomplete', 'flag-true')] + \
-      [{'cassette': 'mem', 'filter': f, 'cats': _FIXCATS, 'q': 'a'} for f in ('flag-any-of', 'flag-gt', 'two-keys')] + \
+      [{'cassette': 'mem', 'filter': f, 'cats': _FIXCATS, 'q': 'a'} for f in ('flag-any-of', 'flag-gt')] + \
       [{'cassette': c, 'filter': 'none', 'random': True, 'q': 'a'} for c in ('mem', 's3')]
 _TS = [{'cassette': c, 'filter': f, 'random': rd, 'q': q} for c in _CASS for f in ('none', 'default-skip-incomplete')
        for rd in (False, True) for q in ('a', 'b', 'a_', '_a', 'ab', '_')] + \
